@@ -21,7 +21,7 @@ from .corpus import CORPUS
 
 PROP = "C20"
 FEATURE_SETS = ("none", "full")
-GRAMMARS = ["g1", "g2", "p1", "p3", "c1", "c3", "o1", "o2", "a1", "a3", "k1", "k2", "v1", "h1"]
+GRAMMARS = ["g1", "g2", "p1", "p3", "c1", "c3", "o1", "o2", "o3", "a1", "a3", "k1", "k2", "k4", "v1", "h1", "kc"]
 
 
 def norm_msg(ex, v):
@@ -156,12 +156,11 @@ def run_job(job, build):
 
 def make_jobs(tier, seed, build):
     jobs = []
-    nmax = 3 if tier == "quick" else 4
+    nmax = 2 if tier == "quick" else 3
     for gname in GRAMMARS:
         g = CORPUS[gname]
-        for n in range(0, nmax + 1):
-            for shape in tok.all_shapes(n, g.decl):
-                jobs.append({"id": "%s:%s" % (gname, ",".join(shape)), "grammar": gname, "shape": shape})
+        for shape in tok.all_shapes_by_words(nmax, g.decl):
+            jobs.append({"id": "%s:%s" % (gname, ",".join(shape)), "grammar": gname, "shape": shape})
     return jobs
 
 
@@ -209,7 +208,7 @@ def finish(results, jobs, build, out, tier, seed, wall):
             else:
                 out.inconc("NONREPRO %s predicted %s native %s (%s)" % (key, c["predicted"], c["native"], c["why"]))
     joint = sum(r.get("joint", 0) for r in results)
-    nmax = 3 if tier == "quick" else 4
+    nmax = 2 if tier == "quick" else 3
     cov = {
         "evaluations": st["queries"],
         "distinct_nontrivial": sum(r.get("nontrivial", 0) for r in results),
@@ -224,7 +223,7 @@ def finish(results, jobs, build, out, tier, seed, wall):
         "solver_time_s": st["solver_s"],
         "mir_statements_executed": st["steps"],
         "outcome_classes": fw.merge_counts(results, "classes"),
-        "bounds": {"items": "0..=%d" % nmax, "grammars": GRAMMARS, "feature_sets": ["{}", "{autocomplete,docgen,batteries}"]},
+        "bounds": {"argv_words": "0..=%d (up to twice as many items)" % nmax, "grammars": GRAMMARS, "feature_sets": ["{}", "{autocomplete,docgen,batteries}"]},
         "jobs": len(jobs),
         "functions_encoded": sorted(fw.merge_counts(results, "fn_hits")),
         "models_used": fw.merge_counts(results, "models_used"),
